@@ -59,7 +59,7 @@ Case wire_case(Rng& r, int param, const Case& keymsg, const char* weights_for) {
   static const W c02[] = {{"flip", 26}, {"padbit", 10}, {"chal", 8},  {"chal3", 3},   {"trunc", 8},   {"extend", 8},  {"dupframe", 2}, {"splice", 4}, {"torn", 4},
                           {"swapmsg", 4}, {"flipmsg", 5}, {"msglen", 2}, {"flippk", 5}, {"misroute", 5}, {"none", 4},    {"dup2", 1},     {"flips", 3}, {"reroll", 4}, {"zerosig", 1}};
   static const W c05[] = {{"arbitrary", 34}, {"flip", 14}, {"chal", 14}, {"chal3", 2},  {"trunc", 10}, {"extend", 6}, {"torn", 6},   {"splice", 3},
-                          {"padbit", 3},     {"flips", 3}, {"flippk", 2}, {"misroute", 2}, {"none", 1}, {"reroll", 9}, {"zerosig", 3}};
+                          {"padbit", 3},     {"flips", 3}, {"flippk", 2}, {"misroute", 2}, {"none", 1}, {"reroll", 9}, {"zerosig", 3}, {"garbagepk", 6}};
   const W* tab = std::string(weights_for) == "c05" ? c05 : c02;
   size_t n = std::string(weights_for) == "c05" ? sizeof c05 / sizeof *c05 : sizeof c02 / sizeof *c02;
   int tot = 0;
